@@ -1,4 +1,5 @@
 import TomlVerif.Model.Ser
+import TomlVerif.Lemmas.Ser07TextRoutes
 import TomlVerif.Driver.Canon
 /-! driver mode `c07`: `d<flags> <tokens>` — a serde value in prefix notation; prints the verdict
     of every route. `d` alone is the code as it stands; each flag letter switches one repaired
@@ -150,8 +151,34 @@ def showVR : Except SerErr V → String
   | .ok v => "ok:" ++ showV v
   | .error e => "err:" ++ showErr e
 
+mutual
+def hasFloatV : V → Bool
+  | .sc (.float _) => true
+  | .sc _ => false
+  | .arr xs => hasFloatVs xs
+  | .inl kvs => hasFloatKVs kvs
+def hasFloatVs : List V → Bool
+  | [] => false
+  | x :: r => hasFloatV x || hasFloatVs r
+def hasFloatKVs : List (Bytes × V) → Bool
+  | [] => false
+  | (_, x) :: r => hasFloatV x || hasFloatKVs r
+end
+
+/-- the text a route returns, as `Lemmas/Ser07TextRoutes.lean` defines it (the definitions `Props/C07Text.lean` is
+    about); only for float-free results: std's `Display` of a double is not modelled -/
+def textField (r : Except SerErr (List (Bytes × V))) (t : Except SerErr Bytes) : String :=
+  match r, t with
+  | .ok kvs, .ok b => if hasFloatKVs kvs then "n/a" else hexOut b
+  | _, _ => "-"
+
 end C07h
 open C07h
+open TomlVerif.Lemmas.Ser07Text in
+def c07Texts (byName guard : Bool) (v : SVal) : String :=
+  let d : FloatDisp := fun _ => []
+  let rt := routeToml byName v
+  s!"ts.x={textField rt (textToml byName d v)} tp.x={textField rt (textTomlPretty byName d v)} es.x={textField (routeEdit v) (textEdit d v)} ep.x={if guard then textField (routeEditPretty true v) (textEditPretty d v) else "n/a"}"
 
 def c07 (line : String) : String :=
   match line.splitOn " " with
@@ -163,7 +190,7 @@ def c07 (line : String) : String :=
     | some (v, []) =>
       let t := showT (routeToml (has 'r') v)
       let e := showT (routeEdit v)
-      s!"ts={t} tp={t} es={e} ep={showT (routeEditPretty (has 'g') v)} ed={showT (serDocument v)} edx={e} vt={showVR (valSer fx v)} tt={showT (tableSer fx (has 'b') v)}"
+      s!"ts={t} tp={t} es={e} ep={showT (routeEditPretty (has 'g') v)} ed={showT (serDocument v)} edx={e} vt={showVR (valSer fx v)} tt={showT (tableSer fx (has 'b') v)} {c07Texts (has 'r') (has 'g') v}"
     | _ => "bad-op"
   | _ => "bad-op"
 
